@@ -612,3 +612,299 @@ Proof.
     rewrite map_map. f_equal. apply map_ext_in. intros x Hx.
     rewrite Forall_forall in H. rewrite forallb_forall in Hwf0. apply H; auto.
 Qed.
+
+(* ================================================================== *)
+(** * 4. The write / read cycle of one record                           *)
+(* ================================================================== *)
+
+Local Open Scope string_scope.
+Local Open Scope list_scope.
+
+(* ---------- conv on a dictionary, as a function of the converted items ---------- *)
+
+Definition cvT : Type := pyval * (option op * option (list op)).
+
+Definition hcv (kv : pyval * pyval) : pyval * cvT :=
+  match kv with (k, x) => (k, (x, conv x)) end.
+
+Definition conv_body (cd : list (pyval * cvT)) : option op :=
+  let raw k := option_map fst (dget k cd) in
+  let flag k := match raw k with Some (PBool b) => b | _ => false end in
+  match raw "type" with
+  | Some (PStr ty) =>
+      if String.eqb ty "build_file" then
+        match raw "filename", raw "fileComparison", raw "funcName", raw "args", raw "kwargs",
+              dget "suboperations" cd, raw "returnValue", raw "fileComparisonResult" with
+        | Some (PStr fnm), Some (PStr cn), Some (PStr fname), Some a, Some k,
+          Some (_, (_, Some subs)), Some r, Some cr =>
+            match cmp_of_name cn with
+            | Some c => Some (OBuildFile (str_path fnm) c fname a k subs r cr (flag "raised") (flag "setupFailed"))
+            | None => None
+            end
+        | _, _, _, _, _, _, _, _ => None
+        end
+      else if String.eqb ty "subbuild" then
+        match raw "funcName", raw "args", raw "kwargs", dget "suboperations" cd, raw "returnValue" with
+        | Some (PStr fname), Some a, Some k, Some (_, (_, Some subs)), Some r =>
+            Some (OSubbuild fname a k subs r (flag "raised") (flag "setupFailed"))
+        | _, _, _, _, _ => None
+        end
+      else
+        match raw "args", raw "returnValue" with
+        | Some (PList args), Some r =>
+            match query_of ty args with
+            | Some q =>
+                match raw "exceptionType" with
+                | None => Some (OSimple q r None)
+                | Some (PStr en) => option_map (fun c => OSimple q r (Some c)) (err_of_name en)
+                | Some PNone => Some (OSimple q r None)
+                | Some _ => None
+                end
+            | None => None
+            end
+        | _, _ => None
+        end
+  | _ => None
+  end.
+
+Lemma conv_dict_eq : forall d, conv (PDict d) = (conv_body (map hcv d), None).
+Proof. reflexivity. Qed.
+
+Lemma conv_list_eq : forall l, conv (PList l) = (None, sequence (map (fun x => fst (conv x)) l)).
+Proof. reflexivity. Qed.
+
+(* field lookup is lookup by (string) key in the underlying dictionary *)
+Lemma dget_hcv : forall k L,
+  dget k (map hcv L) = option_map (fun x => (x, conv x)) (assoc_get (PStr k) L).
+Proof.
+  intros k L. induction L as [|[k' v] L IH]; [reflexivity|].
+  cbn [map hcv assoc_get]. unfold dget in *.
+  destruct k'; cbn [py_eq]; try exact IH.
+  destruct (String.eqb k s); [reflexivity | exact IH].
+Qed.
+
+(* ... hence insensitive to the order of a key-unique dictionary *)
+Lemma dget_sorted : forall k D, wfd D ->
+  dget k (map hcv (sort_items D)) = dget k (map hcv D).
+Proof.
+  intros k D W. rewrite !dget_hcv.
+  rewrite (assoc_get_perm D (sort_items D) k W (Permutation_sym (sort_items_perm D))).
+  reflexivity.
+Qed.
+
+Lemma conv_body_ext : forall cd1 cd2,
+  (forall k, dget k cd1 = dget k cd2) -> conv_body cd1 = conv_body cd2.
+Proof.
+  intros cd1 cd2 H. unfold conv_body. cbv beta zeta. rewrite !H. reflexivity.
+Qed.
+
+(* ---------- the normal form of composite values ---------- *)
+
+Lemma nv_dict_eq : forall d, nv (PDict d) = PDict (sort_items (map (vmap nv) d)).
+Proof.
+  intro d. unfold nv at 1. rewrite detuple_dict_eq, sort_deep_dict_eq, map_map.
+  f_equal. f_equal. apply map_ext. intros [k v]. reflexivity.
+Qed.
+
+Lemma nv_list_eq : forall l, nv (PList l) = PList (map nv l).
+Proof.
+  intro l. unfold nv at 1. cbn [detuple]. rewrite sort_deep_list_eq, map_map. reflexivity.
+Qed.
+
+Lemma nv_str : forall s, nv (PStr s) = PStr s.
+Proof. reflexivity. Qed.
+
+Lemma nv_bool : forall b, nv (PBool b) = PBool b.
+Proof. reflexivity. Qed.
+
+Lemma nv_query_args : forall q, map nv (query_args q) = query_args q.
+Proof. destruct q; reflexivity. Qed.
+
+Lemma conv_nv_dict : forall d, wfd d ->
+  conv (nv (PDict d)) = (conv_body (map hcv (map (vmap nv) d)), None).
+Proof.
+  intros d W. rewrite nv_dict_eq, conv_dict_eq. f_equal.
+  apply conv_body_ext. intro k. apply dget_sorted. apply wfd_vmap. exact W.
+Qed.
+
+(* ---------- conv_body on the three shapes op_to_json produces ---------- *)
+
+Lemma conv_body_simple : forall q r (ca cr cty cex : option op * option (list op)) ex,
+  conv_body ([(PStr "args", (PList (query_args q), ca)); (PStr "returnValue", (r, cr));
+              (PStr "type", (PStr (query_name q), cty))]
+             ++ match ex with
+                | Some c => [(PStr "exceptionType", (PStr (err_name c), cex))]
+                | None => []
+                end)
+  = option_map (fun q' => OSimple q' r ex) (query_of (query_name q) (query_args q)).
+Proof.
+  intros. destruct q as [p|p|p|p|p td|p|p c]; try destruct c;
+    destruct ex as [e|]; try destruct e; reflexivity.
+Qed.
+
+Lemma conv_body_build : forall ps c fname a k r cr sv subs'
+    (ca cf ck crr cty cfn cfc ccr cra csf : option op * option (list op)) csub (raised sf : bool),
+  conv_body ([(PStr "args", (a, ca)); (PStr "funcName", (PStr fname, cf)); (PStr "kwargs", (k, ck));
+              (PStr "returnValue", (r, crr));
+              (PStr "suboperations", (sv, (csub, Some subs')))]
+             ++ (if raised then [(PStr "raised", (PBool true, cra))] else [])
+             ++ (if sf then [(PStr "setupFailed", (PBool true, csf))] else [])
+             ++ [(PStr "type", (PStr "build_file", cty)); (PStr "filename", (PStr ps, cfn));
+                 (PStr "fileComparison", (PStr (cmp_name c), cfc));
+                 (PStr "fileComparisonResult", (cr, ccr))])
+  = Some (OBuildFile (str_path ps) c fname a k subs' r cr raised sf).
+Proof. intros. destruct raised, sf, c; reflexivity. Qed.
+
+Lemma conv_body_sub : forall fname a k r sv subs'
+    (ca cf ck crr cty cra csf : option op * option (list op)) csub (raised sf : bool),
+  conv_body ([(PStr "args", (a, ca)); (PStr "funcName", (PStr fname, cf)); (PStr "kwargs", (k, ck));
+              (PStr "returnValue", (r, crr));
+              (PStr "suboperations", (sv, (csub, Some subs')))]
+             ++ (if raised then [(PStr "raised", (PBool true, cra))] else [])
+             ++ (if sf then [(PStr "setupFailed", (PBool true, csf))] else [])
+             ++ [(PStr "type", (PStr "subbuild", cty))])
+  = Some (OSubbuild fname a k subs' r raised sf).
+Proof. intros. destruct raised, sf; reflexivity. Qed.
+
+(* ---------- the JSON of a well-formed record is sanitized up to tuples ---------- *)
+
+Lemma sanitized_t_dict_intro : forall d,
+  forallb (fun kv => is_pstr (fst kv) && sanitized_gen true (snd kv))%bool d = true ->
+  str_nodup (keys d) = true -> sanitized_t (PDict d) = true.
+Proof.
+  intros d H1 H2. unfold sanitized_t. rewrite sanitized_gen_dict, H1, H2. reflexivity.
+Qed.
+
+Lemma query_args_sanitized : forall q, forallb (sanitized_gen true) (query_args q) = true.
+Proof. destruct q; reflexivity. Qed.
+
+Lemma op_json_sanitized_t : forall o, op_wf o = true -> sanitized_t (op_to_json o) = true.
+Proof.
+  induction o using op_ind'; intro Hwf.
+  - cbn [op_wf] in Hwf. split_andb Hwf. unfold sanitized_t in Hwf0.
+    cbn [op_to_json]. apply sanitized_t_dict_intro.
+    + destruct e;
+        cbn [forallb app fst snd is_pstr andb sanitized_gen];
+        rewrite query_args_sanitized, Hwf0; reflexivity.
+    + destruct e; reflexivity.
+  - rewrite op_wf_build_eq in Hwf. split_andb Hwf.
+    apply sanitized_sanitized_t in Hwf1, Hwf2, Hwf3, Hwf4. unfold sanitized_t in *.
+    assert (Hs : forallb (sanitized_gen true) (map op_to_json subs) = true).
+    { apply forallb_forall. intros y Hy. apply in_map_iff in Hy. destruct Hy as [x [<- Hx]].
+      rewrite Forall_forall in H. rewrite forallb_forall in Hwf0. apply H; auto. }
+    cbn [op_to_json]. apply sanitized_t_dict_intro.
+    + destruct ra, sf;
+        cbn [forallb app fst snd is_pstr andb sanitized_gen pstr_path];
+        rewrite Hwf1, Hwf2, Hwf3, Hwf4, Hs; reflexivity.
+    + destruct ra, sf; reflexivity.
+  - rewrite op_wf_sub_eq in Hwf. split_andb Hwf.
+    apply sanitized_sanitized_t in Hwf, Hwf1, Hwf2. unfold sanitized_t in *.
+    assert (Hs : forallb (sanitized_gen true) (map op_to_json subs) = true).
+    { apply forallb_forall. intros y Hy. apply in_map_iff in Hy. destruct Hy as [x [<- Hx]].
+      rewrite Forall_forall in H. rewrite forallb_forall in Hwf0. apply H; auto. }
+    cbn [op_to_json]. apply sanitized_t_dict_intro.
+    + destruct ra, sf;
+        cbn [forallb app fst snd is_pstr andb sanitized_gen];
+        rewrite Hwf, Hwf1, Hwf2, Hs; reflexivity.
+    + destruct ra, sf; reflexivity.
+Qed.
+
+(* ---------- the list reading of the "suboperations" value ---------- *)
+
+Lemma conv_nv_subs : forall subs,
+  Forall (fun o => fst (conv (nv (op_to_json o))) = Some (norm_op o)) subs ->
+  conv (nv (PList (map op_to_json subs))) = (None, Some (map norm_op subs)).
+Proof.
+  intros subs H. rewrite nv_list_eq, conv_list_eq. f_equal.
+  induction H as [|o subs Ho Hs IH]; [reflexivity|].
+  cbn [map sequence fold_right] in *. unfold sequence in IH. rewrite Ho, IH. reflexivity.
+Qed.
+
+Lemma op_json_wfd : forall o d, op_wf o = true -> op_to_json o = PDict d -> wfd d.
+Proof.
+  intros o d Hwf E. pose proof (op_json_sanitized_t o Hwf) as HS. rewrite E in HS.
+  apply sanitized_gen_dict_wfd in HS. tauto.
+Qed.
+
+Lemma op_to_json_build_eq : forall p c fname a k subs ret_ cmpres raised sf,
+  op_to_json (OBuildFile p c fname a k subs ret_ cmpres raised sf) =
+  PDict ([(PStr "args", a); (PStr "funcName", PStr fname); (PStr "kwargs", k); (PStr "returnValue", ret_);
+          (PStr "suboperations", PList (map op_to_json subs))]
+         ++ (if raised then [(PStr "raised", PBool true)] else [])
+         ++ (if sf then [(PStr "setupFailed", PBool true)] else [])
+         ++ [(PStr "type", PStr "build_file"); (PStr "filename", pstr_path p);
+             (PStr "fileComparison", PStr (cmp_name c)); (PStr "fileComparisonResult", cmpres)]).
+Proof. reflexivity. Qed.
+
+Lemma op_to_json_sub_eq : forall fname a k subs ret_ raised sf,
+  op_to_json (OSubbuild fname a k subs ret_ raised sf) =
+  PDict ([(PStr "args", a); (PStr "funcName", PStr fname); (PStr "kwargs", k); (PStr "returnValue", ret_);
+          (PStr "suboperations", PList (map op_to_json subs))]
+         ++ (if raised then [(PStr "raised", PBool true)] else [])
+         ++ (if sf then [(PStr "setupFailed", PBool true)] else [])
+         ++ [(PStr "type", PStr "subbuild")]).
+Proof. reflexivity. Qed.
+
+(* ---------- reading back the normalised JSON of a record ---------- *)
+
+Ltac fin_flags L b1 b2 :=
+  etransitivity;
+  [ apply L with (raised := b1) (sf := b2) (cra := (None, None)) (csf := (None, None)) | ].
+
+Lemma conv_nv_op : forall o, op_wf o = true ->
+  fst (conv (nv (op_to_json o))) = Some (norm_op o).
+Proof.
+  induction o using op_ind'; intro Hwf.
+  - pose proof (op_json_wfd _ _ Hwf eq_refl) as W.
+    cbn [op_wf] in Hwf. split_andb Hwf.
+    cbn [op_to_json] in W |- *. rewrite (conv_nv_dict _ W). cbn [fst].
+    destruct e as [c|]; cbn [app map vmap hcv];
+      rewrite nv_list_eq, nv_query_args, !nv_str.
+    + etransitivity; [apply conv_body_simple with (ex := Some c)|].
+      rewrite (query_roundtrip _ Hwf). cbn [option_map norm_op].
+      rewrite (norm_val_nv _ Hwf0). reflexivity.
+    + etransitivity; [apply conv_body_simple with (ex := None) (cex := (None, None))|].
+      rewrite (query_roundtrip _ Hwf). cbn [option_map norm_op].
+      rewrite (norm_val_nv _ Hwf0). reflexivity.
+  - pose proof (op_json_wfd _ _ Hwf (op_to_json_build_eq _ _ _ _ _ _ _ _ _ _)) as W.
+    rewrite op_wf_build_eq in Hwf. split_andb Hwf.
+    assert (HS : conv (nv (PList (map op_to_json subs))) = (None, Some (map norm_op subs))).
+    { apply conv_nv_subs. rewrite Forall_forall in *. rewrite forallb_forall in Hwf0.
+      intros x Hx. apply H; auto. }
+    rewrite op_to_json_build_eq. rewrite (conv_nv_dict _ W). cbn [fst norm_op].
+    rewrite !norm_val_nv by (apply sanitized_sanitized_t; assumption).
+    unfold pstr_path.
+    destruct ra, sf; cbn [app map vmap hcv];
+      rewrite HS, !nv_str, ?nv_bool;
+      [ fin_flags conv_body_build true true | fin_flags conv_body_build true false
+      | fin_flags conv_body_build false true | fin_flags conv_body_build false false ];
+      rewrite (path_roundtrip _ Hwf); reflexivity.
+  - pose proof (op_json_wfd _ _ Hwf (op_to_json_sub_eq _ _ _ _ _ _ _)) as W.
+    rewrite op_wf_sub_eq in Hwf. split_andb Hwf.
+    assert (HS : conv (nv (PList (map op_to_json subs))) = (None, Some (map norm_op subs))).
+    { apply conv_nv_subs. rewrite Forall_forall in *. rewrite forallb_forall in Hwf0.
+      intros x Hx. apply H; auto. }
+    rewrite op_to_json_sub_eq. rewrite (conv_nv_dict _ W). cbn [fst norm_op].
+    rewrite !norm_val_nv by (apply sanitized_sanitized_t; assumption).
+    destruct ra, sf; cbn [app map vmap hcv];
+      rewrite HS, !nv_str, ?nv_bool;
+      [ fin_flags conv_body_sub true true | fin_flags conv_body_sub true false
+      | fin_flags conv_body_sub false true | fin_flags conv_body_sub false false ];
+      reflexivity.
+Qed.
+
+Theorem rt_op_norm : forall o, op_wf o = true -> rt_op o = Some (norm_op o).
+Proof.
+  intros o Hwf. unfold rt_op, json_text_roundtrip.
+  rewrite (sanitize_detuple _ (op_json_sanitized_t o Hwf)). cbn [option_map].
+  unfold op_of_json. apply (conv_nv_op o Hwf).
+Qed.
+
+Theorem rt_op_fixed : forall o, op_wf o = true -> norm_op o = o -> rt_op o = Some o.
+Proof. intros o Hwf E. rewrite (rt_op_norm o Hwf), E. reflexivity. Qed.
+
+(* a record read back from a cache file is a fixed point of the cycle *)
+Corollary rt_op_norm_fixed : forall o, op_wf o = true -> rt_op (norm_op o) = Some (norm_op o).
+Proof.
+  intros o Hwf. apply rt_op_fixed; [apply norm_op_wf | apply norm_op_idem]; exact Hwf.
+Qed.
